@@ -329,6 +329,11 @@ def check_bit(C, w, bad):
     outs = []
     try:
         got = C.BIT.bytes_to_float(b)
+        tailed = C.BIT.bytes_to_float(b + FIX_TAIL)        # the four bytes in front of other data: only they count
+        if tailed != got and not (tailed != tailed and got != got):
+            bad.append(({'kind': 'consumed', 'code': 'BIT', 'impl': 'ReadBIT.bytes_to_float'},
+                        'bytes_to_float(%s + %d more bytes) = %r but bytes_to_float(%s) = %r: more than four bytes were used'
+                        % (b.hex(), len(FIX_TAIL), tailed, b.hex(), got)))
         if not _isnum(got) or got != want:
             bad.append(({'kind': 'decode_value', 'code': 'BIT', 'impl': 'ReadBIT.bytes_to_float'},
                         'bytes_to_float(%s) = %r, IBM single value is %r' % (b.hex(), got, want)))
